@@ -71,6 +71,8 @@ CONSTANTS
     NVmax,      \* validators are numbered 1..cfg.nv <= NVmax in registration order (defaults first, topic validator last)
     QCap,       \* capacity of the validation queue
     MaxCopies,  \* copies of one id that may arrive
+    MaxDown,    \* forwarders that may disconnect (their score record is retained)
+    Modes,      \* how a local call publishes: subset of {"pub", "batch"}  (Topic.Publish / Topic.AddToBatch + PubSub.PublishBatch)
     MaxBatch,   \* messages in one incoming RPC (its Publish list may repeat a message)
     Verdicts,   \* what a validator may return: subset of {"A","R","I","U"}  (U = out-of-range value, e.g. 7)
     CfgSpace,   \* the configurations explored (a set of cfg records, see MCIngest)
@@ -79,6 +81,9 @@ CONSTANTS
 VARIABLES
     cfg,        \* [nv, inl, tmo, gthr, vthr, signed, subs, relay, tv1, tv2]  - fixed per behaviour; tv1 / tv2 = number of the
                 \* validator registered for topic 1 / 2 (0 = none; they come after the defaults), the others are default validators
+    conn,       \* forwarders whose streams are up (a peer that left keeps its retained score record)
+    batchQ,     \* the MessageBatch of the application: ids added by AddToBatch and not yet published
+    pendB,      \* PublishBatch requests handed to the event loop and not yet handled (the channel holds one): sequences of ids
     seen,       \* set of ids in the seen cache (no expiry here: see TimeCache.tla)
     sent,       \* sent[id] = copies that have arrived so far
     valQ,       \* validation queue: sequence of [id, src, tv]  (tv = the topic validator captured by getValidators at Push)
@@ -89,14 +94,14 @@ VARIABLES
     vUsed,      \* vUsed[v] = tokens of validator v's own throttle in use
     orphans,    \* validators still running for a job that already ended with Reject: [v, id]
     sendQ,      \* validated messages on their way to the event loop: [id, src, remote]
-    local,      \* local[c] = [st, id, k, res, ret, dup, sq]
+    local,      \* local[c] = [st, id, k, res, ret, dup, sq, mode]
     delivered,  \* delivered[s][id]  (bag per subscription)
     forwarded,  \* forwarded[id]     (times handed to the router)
     penalised,  \* penalised[p][id]  (bag per peer)
     drec,       \* score.go delivery record: drec[id] = [status, peers]
     valCalls, verdictOf, expect, finals, origin, copiesIn, qfull
 
-pipe == <<seen, sent, valQ, loopQ, worker, jobs, gUsed, vUsed, orphans, sendQ, local>>
+pipe == <<conn, batchQ, pendB, seen, sent, valQ, loopQ, worker, jobs, gUsed, vUsed, orphans, sendQ, local>>
 outs == <<delivered, forwarded, penalised, drec>>
 mons == <<valCalls, verdictOf, expect, finals, origin, copiesIn, qfull>>
 vars == <<cfg, pipe, outs, mons>>
@@ -126,19 +131,23 @@ AllOf(id)   == SortedSeq(ValsOf(id))                      \* a local publish run
 Interested == cfg.subs # {} \/ cfg.relay
 
 Idle  == [st |-> "idle", id |-> "-", src |-> "-", k |-> 0, res |-> "A", tv |-> 0]
-LIdle == [st |-> "idle", id |-> "-", k |-> 0, res |-> "A", ret |-> "-", dup |-> FALSE, sq |-> FALSE]
+LIdle == [st |-> "idle", id |-> "-", k |-> 0, res |-> "A", ret |-> "-", dup |-> FALSE, sq |-> FALSE, mode |-> "pub"]
 
 -----------------------------------------------------------------------------
 \* peer-score delivery records (score.go).  At most one of these per action.
 
 ScoreNop == UNCHANGED <<drec, penalised>>
 
+\* markInvalidMessageDelivery charges the retained record of a peer that has left as well (seeded defect
+\* "frozenRetained": it does not)
+Charged(p) == p \in conn \/ Bug # "frozenRetained"
+
 \* peerScore.DuplicateMessage as a function of the score state st = [d, pn]
 DupF(st, p, id) ==
     LET d == st.d[id] IN
     IF p \in d.peers THEN st
     ELSE IF d.status \in {"unknown", "valid"} THEN [st EXCEPT !.d[id].peers = @ \cup {p}]
-    ELSE IF d.status = "invalid" THEN [st EXCEPT !.pn[p][id] = Cap3(@ + 1)]
+    ELSE IF d.status = "invalid" THEN (IF Charged(p) THEN [st EXCEPT !.pn[p][id] = Cap3(@ + 1)] ELSE st)
     ELSE st                                          \* throttled / ignored: nothing
 
 ScoreDup(p, id) ==
@@ -151,7 +160,7 @@ ScoreReject(src, id, reason) ==                      \* peerScore.RejectMessage;
     ELSE IF eff = "failed"
       THEN /\ drec' = [drec EXCEPT ![id] = [status |-> "invalid", peers |-> {}]]
            /\ penalised' = [p \in Fwd |-> [i \in Ids |->
-                  IF i = id THEN Cap3(penalised[p][i] + (IF p = src THEN 1 ELSE 0) + (IF p \in d.peers THEN 1 ELSE 0))
+                  IF i = id /\ Charged(p) THEN Cap3(penalised[p][i] + (IF p = src THEN 1 ELSE 0) + (IF p \in d.peers THEN 1 ELSE 0))
                   ELSE penalised[p][i]]]
     ELSE drec' = [drec EXCEPT ![id] = [status |-> eff, peers |-> {}]] /\ UNCHANGED penalised
 
@@ -170,6 +179,7 @@ Counted(p, id) == copiesIn' = [copiesIn EXCEPT ![p][id] = Cap3(@ + 1)]
 -----------------------------------------------------------------------------
 Init ==
     /\ cfg \in CfgSpace
+    /\ conn = Fwd /\ batchQ = <<>> /\ pendB = <<>>
     /\ seen = {} /\ sent = [i \in Ids |-> 0] /\ valQ = <<>> /\ loopQ = <<>>
     /\ worker = [w \in Workers |-> Idle]
     /\ jobs = {} /\ gUsed = 0 /\ vUsed = [v \in 1..NVmax |-> 0] /\ orphans = {}
@@ -198,7 +208,7 @@ DupFold(st, p, batch, i) ==
     ELSE DupFold(IF KnownDup(batch[i]) THEN DupF(st, p, batch[i]) ELSE st, p, batch, i + 1)
 
 LoopArrive(p, batch) ==
-    /\ loopQ = <<>>
+    /\ loopQ = <<>> /\ p \in conn
     /\ \A id \in Ids : sent[id] + Occ(batch, id) <= MaxCopies
     /\ sent' = [id \in Ids |-> sent[id] + Occ(batch, id)]
     /\ IF ~Interested
@@ -209,7 +219,7 @@ LoopArrive(p, batch) ==
               /\ copiesIn' = [q \in Fwd |-> [id \in Ids |->
                      IF q = p /\ KnownDup(id) THEN Cap3(copiesIn[q][id] + Occ(batch, id)) ELSE copiesIn[q][id]]]
               /\ loopQ' = [k \in 1..Len(pass) |-> [id |-> pass[k], src |-> p, late |-> pass[k] \in seen]]
-    /\ UNCHANGED <<cfg, seen, valQ, worker, jobs, gUsed, vUsed, orphans, sendQ, local, delivered, forwarded,
+    /\ UNCHANGED <<cfg, conn, batchQ, pendB, seen, valQ, worker, jobs, gUsed, vUsed, orphans, sendQ, local, delivered, forwarded,
                    valCalls, verdictOf, expect, finals, origin, qfull>>
 
 \* Seeded defect "sharedVals" (getValidators appends the topic validator onto the shared defaultVals slice, which has
@@ -244,7 +254,7 @@ LoopPush ==
                    /\ origin' = [origin EXCEPT ![id] = "remote"]
                    /\ UNCHANGED <<valQ, worker, valCalls, verdictOf, expect, qfull>>
               ELSE UNCHANGED <<seen, valQ, worker, outs, mons>>        \* marked meanwhile (same RPC, local publish): dropped silently
-    /\ UNCHANGED <<cfg, sent, jobs, gUsed, vUsed, orphans, sendQ, local>>
+    /\ UNCHANGED <<cfg, conn, batchQ, pendB, sent, jobs, gUsed, vUsed, orphans, sendQ, local>>
 
 \* event loop, outbound
 LoopPublish ==
@@ -254,7 +264,7 @@ LoopPublish ==
          /\ Deliver(m.id)
          /\ IF m.remote THEN ScoreDeliver(m.id) ELSE ScoreNop
          /\ finals' = [finals EXCEPT ![m.id] = @ \cup {"A"}]
-    /\ UNCHANGED <<cfg, loopQ, seen, sent, valQ, worker, jobs, gUsed, vUsed, orphans, local, valCalls, verdictOf, expect, origin, copiesIn, qfull>>
+    /\ UNCHANGED <<cfg, conn, batchQ, pendB, loopQ, seen, sent, valQ, worker, jobs, gUsed, vUsed, orphans, local, valCalls, verdictOf, expect, origin, copiesIn, qfull>>
 
 -----------------------------------------------------------------------------
 \* validation workers
@@ -264,13 +274,13 @@ WorkerTake(w) ==
     /\ worker' = [worker EXCEPT ![w] = [st |-> IF cfg.signed THEN "sig" ELSE "mark", id |-> Head(valQ).id,
                                         src |-> Head(valQ).src, k |-> 0, res |-> "A", tv |-> Head(valQ).tv]]
     /\ valQ' = Tail(valQ)
-    /\ UNCHANGED <<cfg, loopQ, seen, sent, jobs, gUsed, vUsed, orphans, sendQ, local, outs, mons>>
+    /\ UNCHANGED <<cfg, conn, batchQ, pendB, loopQ, seen, sent, jobs, gUsed, vUsed, orphans, sendQ, local, outs, mons>>
 
 \* every signature is valid here (the invalid classes are C03's extension point)
 WorkerSig(w) ==
     /\ worker[w].st = "sig"
     /\ worker' = [worker EXCEPT ![w].st = "mark"]
-    /\ UNCHANGED <<cfg, loopQ, seen, sent, valQ, jobs, gUsed, vUsed, orphans, sendQ, local, outs, mons>>
+    /\ UNCHANGED <<cfg, conn, batchQ, pendB, loopQ, seen, sent, valQ, jobs, gUsed, vUsed, orphans, sendQ, local, outs, mons>>
 
 AfterMark(w) == IF InlineOf(worker[w].tv) = <<>> THEN (IF Bug = "markSeenLate" THEN "latemark" ELSE "fin") ELSE "inline"
 AfterInl   == IF Bug = "markSeenLate" THEN "latemark" ELSE "fin"
@@ -293,13 +303,13 @@ WorkerMarkSeen(w) ==
          THEN /\ worker' = [worker EXCEPT ![w].st = AfterMark(w), ![w].k = 1]
               /\ UNCHANGED <<seen, origin, copiesIn, drec, penalised>>
          ELSE MarkOrDup(w, AfterMark(w))
-    /\ UNCHANGED <<cfg, loopQ, sent, valQ, jobs, gUsed, vUsed, orphans, sendQ, local, delivered, forwarded,
+    /\ UNCHANGED <<cfg, conn, batchQ, pendB, loopQ, sent, valQ, jobs, gUsed, vUsed, orphans, sendQ, local, delivered, forwarded,
                    valCalls, verdictOf, expect, finals, qfull>>
 
 WorkerLateMark(w) ==
     /\ worker[w].st = "latemark"
     /\ MarkOrDup(w, "fin")
-    /\ UNCHANGED <<cfg, loopQ, sent, valQ, jobs, gUsed, vUsed, orphans, sendQ, local, delivered, forwarded,
+    /\ UNCHANGED <<cfg, conn, batchQ, pendB, loopQ, sent, valQ, jobs, gUsed, vUsed, orphans, sendQ, local, delivered, forwarded,
                    valCalls, verdictOf, expect, finals, qfull>>
 
 \* monitors of one validator call that returns vd
@@ -317,7 +327,7 @@ WorkerInline(w, vd) ==
          /\ worker' = [worker EXCEPT ![w].res = IF r = "R" THEN "R" ELSE IF r = "I" THEN "I" ELSE @,
                                      ![w].st  = IF r = "R" \/ x.k = Len(InlineOf(x.tv)) THEN AfterInl ELSE "inline",
                                      ![w].k   = @ + 1]
-    /\ UNCHANGED <<cfg, loopQ, seen, sent, valQ, jobs, gUsed, vUsed, orphans, sendQ, local, outs, finals, origin, copiesIn, qfull>>
+    /\ UNCHANGED <<cfg, conn, batchQ, pendB, loopQ, seen, sent, valQ, jobs, gUsed, vUsed, orphans, sendQ, local, outs, finals, origin, copiesIn, qfull>>
 
 Final(id, f) == finals' = [finals EXCEPT ![id] = @ \cup {f}]
 
@@ -341,7 +351,7 @@ WorkerFinish(w) ==
                    /\ UNCHANGED <<jobs, gUsed, sendQ, expect>>
             ELSE /\ sendQ' = Append(sendQ, [id |-> x.id, src |-> x.src, remote |-> TRUE])
                  /\ ScoreNop /\ UNCHANGED <<jobs, gUsed, finals, expect>>
-    /\ UNCHANGED <<cfg, loopQ, seen, sent, valQ, vUsed, orphans, local, delivered, forwarded, valCalls, verdictOf, origin, copiesIn, qfull>>
+    /\ UNCHANGED <<cfg, conn, batchQ, pendB, loopQ, seen, sent, valQ, vUsed, orphans, local, delivered, forwarded, valCalls, verdictOf, origin, copiesIn, qfull>>
 
 -----------------------------------------------------------------------------
 \* asynchronous validators
@@ -354,7 +364,7 @@ AsyncStart(j) ==
          /\ valCalls' = [v \in 1..NVmax |-> IF v \in free THEN [valCalls[v] EXCEPT ![j.id] = Cap3(@ + 1)] ELSE valCalls[v]]
          /\ expect' = IF thr # {} THEN [expect EXCEPT ![j.id] = Max2(@, "T")] ELSE expect
          /\ jobs' = (jobs \ {j}) \cup {[j EXCEPT !.stage = "run", !.run = free, !.acc = IF thr # {} THEN "T" ELSE "A"]}
-    /\ UNCHANGED <<cfg, loopQ, seen, sent, valQ, worker, gUsed, orphans, sendQ, local, outs, verdictOf, finals, origin, copiesIn, qfull>>
+    /\ UNCHANGED <<cfg, conn, batchQ, pendB, loopQ, seen, sent, valQ, worker, gUsed, orphans, sendQ, local, outs, verdictOf, finals, origin, copiesIn, qfull>>
 
 \* what the end of a job does to sendQ, the score and the monitors
 JobEnds(j, result) ==
@@ -381,7 +391,7 @@ AsyncReturn(j, v, vd) ==
                    /\ JobEnds(j, "R")
               ELSE /\ jobs' = (jobs \ {j}) \cup {[j EXCEPT !.run = @ \ {v}, !.acc = Comb(@, r)]}
                    /\ UNCHANGED <<gUsed, orphans, sendQ, finals, drec, penalised>>
-    /\ UNCHANGED <<cfg, loopQ, seen, sent, valQ, worker, local, delivered, forwarded, valCalls, origin, copiesIn, qfull>>
+    /\ UNCHANGED <<cfg, conn, batchQ, pendB, loopQ, seen, sent, valQ, worker, local, delivered, forwarded, valCalls, origin, copiesIn, qfull>>
 
 AsyncDone(j, v, vd)    == AsyncReturn(j, v, vd)
 AsyncTimeout(j, v, vd) == v \in cfg.tmo /\ AsyncReturn(j, v, vd)   \* the validator returns vd when its context ends
@@ -390,22 +400,29 @@ AsyncCombine(j) ==
     /\ j \in jobs /\ j.stage = "run" /\ j.run = {}
     /\ jobs' = jobs \ {j} /\ gUsed' = gUsed - 1
     /\ JobEnds(j, j.acc)
-    /\ UNCHANGED <<cfg, loopQ, seen, sent, valQ, worker, vUsed, orphans, local, delivered, forwarded,
+    /\ UNCHANGED <<cfg, conn, batchQ, pendB, loopQ, seen, sent, valQ, worker, vUsed, orphans, local, delivered, forwarded,
                    valCalls, verdictOf, expect, origin, copiesIn, qfull>>
 
 OrphanDone(o) ==
     /\ o \in orphans
     /\ orphans' = orphans \ {o}
     /\ vUsed' = [vUsed EXCEPT ![o.v] = @ - 1]
-    /\ UNCHANGED <<cfg, loopQ, seen, sent, valQ, worker, jobs, gUsed, sendQ, local, outs, mons>>
+    /\ UNCHANGED <<cfg, conn, batchQ, pendB, loopQ, seen, sent, valQ, worker, jobs, gUsed, sendQ, local, outs, mons>>
 
 -----------------------------------------------------------------------------
 \* local publish (Topic.Publish on the caller's goroutine)
 
-LocalStart(c, id) ==
-    /\ local[c].st = "idle" /\ id \in LocalIds
-    /\ local' = [local EXCEPT ![c].st = "mark", ![c].id = id]
-    /\ UNCHANGED <<cfg, loopQ, seen, sent, valQ, worker, jobs, gUsed, vUsed, orphans, sendQ, outs, mons>>
+\* the peer's streams close: handleDeadPeers; its non-positive score record is retained, nothing else changes here
+\* (what it already sent stays in the pipeline)
+Disconnect(p) ==
+    /\ p \in conn /\ Cardinality(Fwd \ conn) < MaxDown
+    /\ conn' = conn \ {p}
+    /\ UNCHANGED <<cfg, batchQ, pendB, seen, sent, valQ, loopQ, worker, jobs, gUsed, vUsed, orphans, sendQ, local, outs, mons>>
+
+LocalStart(c, id, mode) ==
+    /\ local[c].st = "idle" /\ id \in LocalIds /\ mode \in Modes
+    /\ local' = [local EXCEPT ![c].st = "mark", ![c].id = id, ![c].mode = mode]
+    /\ UNCHANGED <<cfg, conn, batchQ, pendB, loopQ, seen, sent, valQ, worker, jobs, gUsed, vUsed, orphans, sendQ, outs, mons>>
 
 LocalMarkSeen(c) ==
     /\ local[c].st = "mark"
@@ -417,7 +434,7 @@ LocalMarkSeen(c) ==
          ELSE /\ seen' = seen \cup {id}
               /\ origin' = [origin EXCEPT ![id] = "local"]
               /\ local' = [local EXCEPT ![c].st = IF ValsOf(id) = {} THEN "fin" ELSE "inline", ![c].k = 1]
-    /\ UNCHANGED <<cfg, loopQ, sent, valQ, worker, jobs, gUsed, vUsed, orphans, sendQ, outs,
+    /\ UNCHANGED <<cfg, conn, batchQ, pendB, loopQ, sent, valQ, worker, jobs, gUsed, vUsed, orphans, sendQ, outs,
                    valCalls, verdictOf, expect, finals, copiesIn, qfull>>
 
 \* synchronous = true: every validator runs inline, in registration order
@@ -429,23 +446,48 @@ LocalInline(c, vd) ==
          /\ local' = [local EXCEPT ![c].res = IF r = "R" THEN "R" ELSE IF r = "I" THEN "I" ELSE @,
                                    ![c].st  = IF r = "R" \/ x.k = Len(AllOf(x.id)) THEN "fin" ELSE "inline",
                                    ![c].k   = @ + 1]
-    /\ UNCHANGED <<cfg, loopQ, seen, sent, valQ, worker, jobs, gUsed, vUsed, orphans, sendQ, outs, finals, origin, copiesIn, qfull>>
+    /\ UNCHANGED <<cfg, conn, batchQ, pendB, loopQ, seen, sent, valQ, worker, jobs, gUsed, vUsed, orphans, sendQ, outs, finals, origin, copiesIn, qfull>>
+
+\* where a message that passed (or is wrongly let through) goes: Publish hands it to the event loop, AddToBatch to the batch
+\* (seeded defect "batchSharedArray": MessageBatch.take leaves the batch on the SAME backing array as the request it
+\* handed out, so the k-th message added afterwards overwrites slot k of a request that is still pending)
+Leaves(x) == IF x.mode = "batch"
+               THEN /\ batchQ' = Append(batchQ, x.id) /\ UNCHANGED sendQ
+                    /\ pendB' = IF Bug = "batchSharedArray" /\ pendB # <<>> /\ Len(batchQ) + 1 <= Len(pendB[Len(pendB)])
+                                  THEN [pendB EXCEPT ![Len(pendB)][Len(batchQ) + 1] = x.id] ELSE pendB
+               ELSE sendQ' = Append(sendQ, [id |-> x.id, src |-> "self", remote |-> FALSE]) /\ UNCHANGED <<batchQ, pendB>>
 
 LocalFinish(c) ==
     /\ local[c].st = "fin"
     /\ LET x == local[c] IN
        IF x.res = "A"
-         THEN /\ sendQ' = Append(sendQ, [id |-> x.id, src |-> "self", remote |-> FALSE])
+         THEN /\ Leaves(x)
               /\ local' = [local EXCEPT ![c].st = "ret", ![c].ret = "nil", ![c].sq = TRUE]
               /\ UNCHANGED finals
          ELSE /\ Final(x.id, x.res)
-              /\ IF Bug = "localSwallow"      \* ValidateLocal loses the error: the message goes out and Publish says nil
-                   THEN /\ sendQ' = Append(sendQ, [id |-> x.id, src |-> "self", remote |-> FALSE])
+              /\ IF Bug = "localSwallow"      \* ValidateLocal loses the error: the message goes out and the call says nil
+                   THEN /\ Leaves(x)
                         /\ local' = [local EXCEPT ![c].st = "ret", ![c].ret = "nil", ![c].sq = TRUE]
+                   ELSE IF Bug = "batchKeepsFailed" /\ x.mode = "batch"   \* AddToBatch returns the error but keeps the message
+                   THEN /\ Leaves(x)
+                        /\ local' = [local EXCEPT ![c].st = "ret", ![c].ret = "err", ![c].sq = TRUE]
                    ELSE /\ local' = [local EXCEPT ![c].st = "ret", ![c].ret = "err"]
-                        /\ UNCHANGED sendQ
-    /\ UNCHANGED <<cfg, loopQ, seen, sent, valQ, worker, jobs, gUsed, vUsed, orphans, outs,
+                        /\ UNCHANGED <<sendQ, batchQ, pendB>>
+    /\ UNCHANGED <<cfg, conn, loopQ, seen, sent, valQ, worker, jobs, gUsed, vUsed, orphans, outs,
                    valCalls, verdictOf, expect, origin, copiesIn, qfull>>
+
+\* PubSub.PublishBatch: the batch is taken and handed to the event loop (a channel of one request) ...
+BatchPublish ==
+    /\ batchQ # <<>> /\ pendB = <<>>
+    /\ pendB' = <<batchQ>> /\ batchQ' = <<>>
+    /\ UNCHANGED <<cfg, conn, seen, sent, valQ, loopQ, worker, jobs, gUsed, vUsed, orphans, sendQ, local, outs, mons>>
+
+\* ... which delivers every message of the request to the subscriptions and forwards them
+LoopBatch ==
+    /\ pendB # <<>> /\ loopQ = <<>>
+    /\ sendQ' = sendQ \o [k \in DOMAIN pendB[1] |-> [id |-> pendB[1][k], src |-> "self", remote |-> FALSE]]
+    /\ pendB' = Tail(pendB)
+    /\ UNCHANGED <<cfg, conn, batchQ, seen, sent, valQ, loopQ, worker, jobs, gUsed, vUsed, orphans, local, outs, mons>>
 
 -----------------------------------------------------------------------------
 \* Tick: nothing in this module depends on the clock (the seen window is TimeCache.tla's subject and
@@ -462,7 +504,9 @@ Next ==
     \/ \E j \in jobs : AsyncStart(j) \/ AsyncCombine(j)
     \/ \E j \in jobs, v \in 1..NVmax, vd \in Verdicts : AsyncDone(j, v, vd)
     \/ \E o \in orphans : OrphanDone(o)
-    \/ \E c \in Calls, id \in LocalIds : LocalStart(c, id)
+    \/ \E c \in Calls, id \in LocalIds, md \in Modes : LocalStart(c, id, md)
+    \/ BatchPublish \/ LoopBatch
+    \/ \E p \in Fwd : Disconnect(p)
     \/ \E c \in Calls : LocalMarkSeen(c) \/ LocalFinish(c)
     \/ \E c \in Calls, vd \in Verdicts : LocalInline(c, vd)
 
